@@ -190,3 +190,92 @@ MODEL_TABLE: dict[str, list[tuple]] = {
           "each(P:self.in_event_sets))}",), [], [], ""),
     ],
 }
+
+
+# ---- PlantUML graph: node creation, placeholder sinks, the event line
+_TYPES = "phi((PUMLEvent.NORMAL)|(phi((PUMLEvent.NORMAL)|P:event_types))|" \
+         "P:event_types)"
+_NEWEV = "PUMLEventNode(P:event_name,P:self.get_occurrence_count(" \
+         f"P:event_name),{_TYPES},P:sub_graph,phi(None|P:self.branch_counts)," \
+         "P:parent_graph_node)"
+_ZIP = "each(zip(['is_branch','is_break','is_merge'],[PUMLEvent.BRANCH," \
+       "PUMLEvent.BREAK,PUMLEvent.MERGE]))"
+_IND = "(' ' Mult P:indent)"
+_BODY = "P:self.sub_graph.write_uml_blocks("
+_LOOPED = f"(([({_IND} Add 'repeat')] Add {_BODY}(P:indent Add P:tab_size)," \
+          f"tab_size=P:tab_size)) Add [({_IND} Add 'repeat while')])"
+_PLAIN = f"{_BODY}P:indent,tab_size=P:tab_size)"
+PUML_TABLE: dict[str, list[tuple]] = {
+    "PUMLGraph.create_event_node": [
+        ("the node carries name, a fresh occurrence number, its types, its "
+         "body (if a loop) and the model node it stands for", "ret", "", "",
+         (_NEWEV,), [], [], ""),
+        ("it is added to the graph", "call", "add_puml_node", "P:self",
+         (_NEWEV,), [], [], ""),
+        ("the occurrence number is used up", "call",
+         "increment_occurrence_count", "P:self", ("P:event_name",), [], [],
+         ""),
+        ("a branch event uses up a branch number", "store", "Add",
+         "P:self.branch_counts", ("1",),
+         [("cmp", "PUMLEvent.BRANCH", "In", _TYPES, "1")], [], ""),
+        ("it is registered under the model node it stands for", "call",
+         "add_parent_graph_node_to_node_ref", "P:self",
+         ("P:parent_graph_node", _NEWEV),
+         [("cmp", "P:parent_graph_node", "Is", "None", "0")], [], ""),
+    ],
+    "PUMLEventNode.__init__": [
+        ("the body of a loop node is kept", "store", "", "P:self.sub_graph",
+         ("P:sub_graph",), [], [], ""),
+        ("types default to NORMAL only when none are given", "store", "",
+         "P:self.event_types", ("(P:event_types if (P:event_types IsNot "
+                                "None) else (PUMLEvent.NORMAL))",), [], [],
+         ""),
+        ("identity = (name, occurrence); branch / break / merge are flagged "
+         "from the types", "call", "__init__", "super()",
+         ("node_id=(P:event_name,P:occurrence)", "node_type=P:event_name",
+          f"extra_info={{{_ZIP}[0]:True for.. if ({_ZIP}[1] In "
+          "P:self.event_types)}"), [], [], ""),
+    ],
+    "PUMLEventNode._write_event_blocks": [
+        ("one activity line with the event's own name", "call", "append",
+         "[]", (f"f'{{{_IND}}}:{{P:self.node_type}}{{phi(''|aug(Add f',BCNT,"
+                "user={P:self.node_type},name=BC{P:self.branch_number}'))};'",
+                ), [], [], ""),
+        ("followed by break exactly for a BREAK node", "call", "append",
+         "[]", (f"f'{{{_IND}}}break'",),
+         [("cmp", "PUMLEvent.BREAK", "In", "P:self.event_types", "1")], [],
+         ""),
+    ],
+    "PUMLEventNode.write_uml_blocks": [
+        ("a node with a body is written as its body (framed by repeat .. "
+         "repeat while for a LOOP), any other as its activity line", "ret",
+         "", "", (f"(phi({_LOOPED}|P:self._write_event_blocks(P:indent)|"
+                  f"{_PLAIN}),(0 Mult P:tab_size))",), [], [], ""),
+        ("a body that is a break point is followed by break", "call",
+         "append", f"phi({_LOOPED}|{_PLAIN})", (f"f'{{{_IND}}}break'",),
+         [("cmp", "P:self.sub_graph", "Is", "None", "0"),
+          ("cmp", "PUMLEvent.BREAK", "In", "P:self.event_types", "1")], [],
+         ""),
+    ],
+    "PUMLGraph.remove_dummy_start_event_nodes": [
+        ("every dummy start node leaves the diagram", "call", "remove_node",
+         "P:self", ("each(P:self.nodes)",),
+         [("truth", "isinstance(each(P:self.nodes),PUMLEventNode)", "1"),
+          ("cmp", "DUMMY_START_EVENT", "Eq", "each(P:self.nodes).node_type",
+           "1")], [], ""),
+    ],
+    "PUMLGraph.remove_dummy_end_event_nodes": [
+        ("every dummy end node leaves the diagram", "call", "remove_node",
+         "P:self", ("each(P:self.nodes)",),
+         [("truth", "isinstance(each(P:self.nodes),PUMLEventNode)", "1"),
+          ("cmp", "DUMMY_END_EVENT", "Eq", "each(P:self.nodes).node_type",
+           "1")], [], ""),
+    ],
+    "PUMLGraph.add_sub_graph_to_puml_nodes_with_ref": [
+        ("every diagram node that stands for the loop node gets the body",
+         "store", "", "each(P:self.parent_graph_nodes_to_node_ref[P:ref])."
+         "sub_graph", ("P:sub_graph",),
+         [("cmp", "P:ref", "In", "P:self.parent_graph_nodes_to_node_ref",
+           "1")], [], ""),
+    ],
+}
